@@ -30,11 +30,11 @@ Inductive vmember :=
 | VM_Dim (name : dname) (cls : bytes)      (* DIM_TAG: a dimension Vgroup, found again through its name and class *)
 | VM_VH (v : avdata)                       (* DFTAG_VH: an attribute Vdata or the SDSVar / CoordVar marker *)
 | VM_Data (d : bytes)                      (* DATA_TAG: the data element (here: the scale values) *)
-| VM_NT (hdftype : Z)                      (* DFTAG_NT *)
+| VM_NT (base cls : Z)                     (* DFTAG_NT: type code (HDFtype & 0xff) and class byte (IEEE / PC / ...) *)
 | VM_SDD                                   (* DFTAG_SDD *)
 | VM_NDG (ref : Z).                        (* DFTAG_NDG: the variable's reference *)
 Definition vm_tag (m : vmember) : Z :=
-  match m with VM_Dim _ _ => DIM_TAG | VM_VH _ => ATTR_TAG | VM_Data _ => DATA_TAG | VM_NT _ => DFTAG_NT
+  match m with VM_Dim _ _ => DIM_TAG | VM_VH _ => ATTR_TAG | VM_Data _ => DATA_TAG | VM_NT _ _ => DFTAG_NT
              | VM_SDD => DFTAG_SDD | VM_NDG _ => DFTAG_NDG end.
 Record vargroup := mkVG { vgr_name : dname; vgr_class : bytes; vgr_members : list vmember }.
 Inductive topmember := TM_Dim (d : dimgroup) | TM_Var (v : vargroup) | TM_Attr (a : avdata).
@@ -109,6 +109,13 @@ Definition kind_marker (k : vkind) : avdata :=
   | KSds => mkAV [] _HDF_SDSVAR SDSVAR_FIELD DFNT_FLOAT32 1 0 []
   | KCoord => mkAV [] _HDF_CRDVAR CRDVAR_FIELD DFNT_FLOAT32 1 0 []
   end.
+(** hdf_write_var: the class byte of the number-type record -- DFNTF_PC when the little-endian bit is set in the field
+    the source tests (0 = HDFtype, 1 = the nc_type), else DFNTF_IEEE (native types are outside the domain);
+    hdf_read_vars: HDFtype = type code, with DFNT_LITEND added when the class is DFNTF_PC *)
+Definition nt_class (hdftype : Z) : Z :=
+  let tested := if NT_LITEND_FIELD =? 0 then hdftype else match nc_type hdftype with Some t => t | None => 0 end in
+  if Z.land tested DFNT_LITEND =? 0 then DFNTF_IEEE else DFNTF_PC.
+Definition nt_decode (base cls : Z) : Z := if cls =? DFNTF_PC then Z.lor base DFNT_LITEND else base.
 Definition store_var (c : sdcore) (v : var) : vargroup :=
   let objs := slot_objs c in
   let obj (sl : nat) := match slot_dim c sl with Some k => nth k (s_dims c) dim0 | None => dim0 end in
@@ -117,7 +124,7 @@ Definition store_var (c : sdcore) (v : var) : vargroup :=
         ++ map (fun a => VM_VH (encode_attr a)) (v_attrs v)
         ++ [VM_VH (kind_marker (v_kind v))]
         ++ (match v_scale v with Some d => [VM_Data d] | None => [] end)
-        ++ [VM_NT (v_nt v); VM_SDD; VM_NDG (v_ref v)]).
+        ++ [VM_NT (Z.land (v_nt v) 255) (nt_class (v_nt v)); VM_SDD; VM_NDG (v_ref v)]).
 
 (** NC_dimid: the first dimension of that name *)
 Definition dimid (ds : list dimo) (n : dname) : nat :=
@@ -134,7 +141,7 @@ Definition read_var (ds : list dimo) (g : vargroup) : var :=
   let ms := vgr_members g in
   let kind := last_kind ms KSds in
   mkVar (vgr_name g) kind
-        (fold_right (fun m acc => match m with VM_NT t => t | _ => acc end) 0 ms)
+        (fold_right (fun m acc => match m with VM_NT b cl => nt_decode b cl | _ => acc end) 0 ms)
         (filter_map (fun m => match m with
                               | VM_Dim n cls => if beq cls _HDF_DIMENSION || beq cls _HDF_UDIMENSION then Some (dimid ds n) else None
                               | _ => None end) ms)
